@@ -62,6 +62,7 @@ class Harness:
         self.reg = {"r": set(), "w": set()}
         self.ctl = None             # harness/selthread_s2c.Controller when a TLC behaviour is being forced
         self.pending_hs = []        # controlled mode: posted _handle_select calls not yet delivered
+        self.small_waker = False    # shrink the waker's send buffer so that sends hit BlockingIOError
 
     # -- identity / schedule perturbation
     def tid(self):
@@ -277,6 +278,8 @@ def make_socket_shim(H):
     class Shim:
         def socketpair(self, *a, **k):
             r, w = _real_socket.socketpair(*a, **k)
+            if H.small_waker:
+                w.setsockopt(_real_socket.SOL_SOCKET, _real_socket.SO_SNDBUF, 1)   # clamps to ~6 one-byte sends
             H.fdidx[r.fileno()] = 0
             H.waker_pair = (r, w)
             return TSock(r), TSock(w)
@@ -385,6 +388,7 @@ class Run:
         self.close_called = False
         self.atexit_called = False
         self.env_stop = False
+        self.H.small_waker = self.rng.random() < 0.15
 
     # -- environment actions (any thread; exact position in the log: syscall under the harness lock)
     def env_ready(self, k, f):
@@ -514,6 +518,8 @@ class Run:
         self.pre_close = x >= 0.15 and x < 0.20           # close() before the loop ever runs
         self.use_atexit = rng.random() < 0.2
         self.pre_ops = [ops.pop() for _ in range(min(len(ops), rng.choice((0, 0, 1, 2))))]
+        if self.H.small_waker:          # enough wake-ups before the selector thread exists to fill the buffer
+            self.pre_ops += [("reg", "add", rng.choice("rw"), rng.randint(1, self.nf)) for _ in range(rng.randint(5, 9))]
         self.post_ops = [("reg", rng.choice(("add", "rem")), rng.choice("rw"), rng.randint(1, self.nf))
                          for _ in range(rng.choice((0, 0, 1, 2)))]
         self.ops = ops
@@ -570,6 +576,7 @@ class Run:
             loop.run_forever()
             self.env_stop = True
             envt.join(WATCHDOG)
+            self._await_selector()
             # the documented shutdown path of the thread manager (GeneratorExit -> close(), a no-op now)
             loop.run_until_complete(loop.shutdown_asyncgens())
         except Hang as e:
@@ -592,6 +599,17 @@ class Run:
                 except Exception:
                     pass
             self.done.set()
+
+    def _await_selector(self):
+        """The scenario is over (closed): the log is complete only when the selector thread has
+        returned (it may have been started after close() and not have run yet)."""
+        th = self.st._thread
+        if th is not None and not self.H.hung:
+            _real_threading.Thread.join(th, WATCHDOG)
+            if th.is_alive():
+                self.H.hung = True
+                self.H.ev("hang", args=["selector thread alive after close"])
+                self.H.error("hang: selector thread still alive after close()")
 
     def _later(self, fn):
         d = self.rng.choice((0, 0, 0, 0.0002, 0.0005, 0.001))
